@@ -2,7 +2,7 @@
 """Runs the real `2a-emulator interactive` main loop under a pseudo terminal.
 
 usage: pty_session.py <binary> <cwd> <cols>x<rows> <wait_s> [--program FILE] -- <key> [<key> ...]
-Keys: ^a ^w ^e ^r ^l ^c, ENTER, TAB, UP, DOWN, LEFT, RIGHT, WAIT:<seconds>, or literal text.
+Keys: ^a ^w ^e ^r ^l ^c, ENTER, TAB, UP, DOWN, LEFT, RIGHT, WAIT:<seconds>, RESIZE:<cols>x<rows>, or literal text.
 Prints `EXIT <status>` (status of the child as a shell would report it, or `timeout`)."""
 import os, pty, sys, time, select, struct, fcntl, termios, signal
 
@@ -56,6 +56,14 @@ def main():
     for k in keys:
         if k.startswith('WAIT:'):
             drain(float(k[5:])); continue
+        if k.startswith('RESIZE:'):
+            c, r = [int(x) for x in k[7:].split('x')]
+            fcntl.ioctl(fd, termios.TIOCSWINSZ, struct.pack('HHHH', r, c, 0, 0))
+            try:
+                os.kill(pid, signal.SIGWINCH)
+            except OSError:
+                pass
+            drain(0.3); continue
         if len(k) == 2 and k[0] == '^':
             data = bytes([ord(k[1].lower()) - 96])
         else:
